@@ -75,10 +75,10 @@ func genC41Msg(n int, forge bool, kinds []string) *rapid.Generator[c41Msg] {
 			m.P = slot
 			m.Empty = rapid.SampledFrom([]bool{false, false, false, true}).Draw(t, "empty")
 		case "com":
-			m.From = rapid.IntRange(0, n-1).Draw(t, "from")
+			m.From = rapid.OneOf(rapid.IntRange(0, n-1), rapid.IntRange(0, 2)).Draw(t, "from")
 			m.P = slot
-			m.Empty = rapid.SampledFrom([]bool{false, false, false, true}).Draw(t, "empty")
-			m.Emb = rapid.SliceOfN(rapid.IntRange(0, n-1), 0, n).Draw(t, "emb")
+			m.Empty = rapid.SampledFrom([]bool{false, false, true}).Draw(t, "empty")
+			m.Emb = rapid.OneOf(rapid.Just([]int{}), rapid.SliceOfN(rapid.IntRange(0, n-1), 0, 2), rapid.SliceOfN(rapid.IntRange(0, n-1), 0, n)).Draw(t, "emb")
 			m.Var = rapid.SampledFrom([]int{0, 0, 0, 1, 2, 3}).Draw(t, "var")
 			if forge && rapid.IntRange(0, 5).Draw(t, "forge?") == 0 {
 				m.Forge = rapid.SliceOfN(rapid.IntRange(0, n+2), 1, n).Draw(t, "forge")
@@ -94,7 +94,31 @@ func genC41(t *rapid.T) c41Case {
 	c.N = rapid.IntRange(4, ev.Scale(10, 13)).Draw(t, "n")
 	c.C = rapid.IntRange(1, (c.N-1)/3).Draw(t, "c")
 	if c.Mode == "gcc" {
-		c.Msgs = rapid.SliceOfN(genC41Msg(c.N, false, []string{"com"}), 0, 3*c.N).Draw(t, "msgs")
+		if rapid.IntRange(0, 3).Draw(t, "freeform") == 0 {
+			c.Msgs = rapid.SliceOfN(genC41Msg(c.N, false, []string{"com"}), 0, 3*c.N).Draw(t, "msgs")
+			return c
+		}
+		// the shape the fast-forward path produces: every committer votes for ONE block but may have
+		// several distinct commit messages for it (re-sent with other embedded endorsers / reports)
+		type keyed struct {
+			k int
+			m c41Msg
+		}
+		var all []keyed
+		who := rapid.SliceOfNDistinct(rapid.IntRange(0, c.N-1), 0, c.N, func(i int) int { return i }).Draw(t, "committers")
+		for _, w := range who {
+			slot := rapid.SampledFrom([]int{0, 0, 0, 1, 2}).Draw(t, "slot")
+			empty := rapid.SampledFrom([]bool{false, false, true}).Draw(t, "empty")
+			nv := rapid.SampledFrom([]int{1, 1, 2, 3, 4}).Draw(t, "variants")
+			for v := 0; v < nv; v++ {
+				emb := rapid.OneOf(rapid.Just([]int{}), rapid.SliceOfN(rapid.IntRange(0, c.N-1), 0, 2), rapid.SliceOfN(rapid.IntRange(0, c.N-1), 0, c.N)).Draw(t, "emb")
+				all = append(all, keyed{rapid.IntRange(0, 1000).Draw(t, "order"), c41Msg{K: "com", From: w, P: slot, Empty: empty, Emb: emb, Var: v}})
+			}
+		}
+		sort.SliceStable(all, func(i, j int) bool { return all[i].k < all[j].k })
+		for _, x := range all {
+			c.Msgs = append(c.Msgs, x.m)
+		}
 		return c
 	}
 	c.Endorsers = rapid.SliceOfNDistinct(rapid.IntRange(0, c.N-1), 0, c.N, func(i int) int { return i }).Draw(t, "endorsers")
